@@ -116,7 +116,9 @@ func newWSHandlerWait(host string, dial dialFunc, conn gkm.Gauge, wait time.Dura
 		if !bytes.HasPrefix(b, []byte("HTTP/1.1 101")) {
 			firstLine := strings.SplitN(string(b), "\n", 1)
 			log.Printf("[INFO] Websocket upgrade failed for %s: %s", r.URL, firstLine)
-			http.Error(w, "websocket upgrade failed", http.StatusInternalServerError)
+			// the refusal is the answer to the request: the client has its
+			// first bytes, pass the rest of it on as well
+			io.Copy(in, out)
 			return
 		}
 
